@@ -155,7 +155,7 @@ class Evaluator:
                     fn = ci.methods.get("__call__")
                     if fn is None or fn.args.vararg is None or fn.args.args[1:] or fn.args.kwonlyargs or fn.args.kwarg:
                         continue
-                    body = [b for b in fn.body if not (isinstance(b, ast.Expr) and isinstance(b.value, ast.Constant))]
+                    body = _single_return(fn.body)
                     if len(body) == 1 and isinstance(body[0], ast.Return) and isinstance(body[0].value, ast.Call):
                         c = body[0].value
                         if (isinstance(c.func, ast.Attribute) and isinstance(c.func.value, ast.Name) and c.func.value.id == "self" and not c.keywords and len(c.args) == 1
@@ -2194,11 +2194,33 @@ def _const_tag_call(diffg, x, T):
     return None
 
 
+def _single_return(body):
+    """the statement list `t1 = E1; ..; return R` (each ti a plain name assigned once, docstrings skipped) as the one statement `return R[ti := Ei]`; other
+    bodies are returned unchanged"""
+    import copy
+    core = [b for b in body if not (isinstance(b, ast.Expr) and isinstance(b.value, ast.Constant))]
+    if len(core) < 2 or not isinstance(core[-1], ast.Return) or core[-1].value is None:
+        return core
+    temps = {}
+
+    class _S(ast.NodeTransformer):
+        def visit_Name(self, n):
+            if isinstance(n.ctx, ast.Load) and n.id in temps:
+                return copy.deepcopy(temps[n.id])  # (already fully substituted: no second pass)
+            return n
+    for st in core[:-1]:
+        tgt = st.targets[0] if isinstance(st, ast.Assign) and len(st.targets) == 1 else (st.target if isinstance(st, ast.AnnAssign) and st.value is not None else None)
+        if not isinstance(tgt, ast.Name):
+            return core
+        temps[tgt.id] = _S().visit(copy.deepcopy(st.value))
+    return [ast.fix_missing_locations(ast.copy_location(ast.Return(value=_S().visit(copy.deepcopy(core[-1].value))), core[-1]))]
+
+
 def _thin_forwarder(fn, cls_name) -> bool:
     """`def f(x): return Cls.g(x.items())`: a one-statement static method that hands re-arranged arguments to another method of its own class"""
     if not _is_static(fn):
         return False
-    body = [b for b in fn.body if not (isinstance(b, ast.Expr) and isinstance(b.value, ast.Constant))]
+    body = _single_return(fn.body)
     if not (len(body) == 1 and isinstance(body[0], ast.Return) and isinstance(body[0].value, ast.Call)):
         return False
     c = body[0].value
